@@ -17,6 +17,7 @@ mod stop;
 mod strategy;
 mod tree;
 mod util;
+mod xform;
 
 use util::Args;
 
@@ -48,6 +49,8 @@ fn main() {
         ["record", "par"] => par::record(&args),
         ["replay", "lattice"] => lattice::replay(&args),
         ["child", "lattice"] => lattice::child(&args),
+        ["gen", "xform"] => xform::gen(&args),
+        ["replay", "xform"] => xform::replay(&args),
         other => {
             eprintln!("unknown command {other:?}");
             std::process::exit(2);
